@@ -524,6 +524,11 @@ func condFacts(cond ssa.Value, truth bool) []fact {
 			return []fact{{kind: fNeq, x: x, y: y}}
 		}
 	}
+	if prm, ok := cond.(*ssa.Parameter); ok {
+		if v, bound := boundBool[prm]; bound && v != cond {
+			return condFacts(v, truth)
+		}
+	}
 	if truth {
 		return []fact{{kind: fTrue, x: cond}}
 	}
